@@ -327,7 +327,8 @@ def search_total(ctx, shim, r, rows, branch, n):
             seen.add(site)
             # smallest input for this site among the ones found
             cands = [x for x, y in zip(strs, outs) if y.startswith("panic") and site.split(":")[0] in y and (":" + site.split(":")[1] + " ") in y]
-            s0 = min(cands, key=lambda x: (len(x.encode()), x))
+            named = [x for x in fixed if x in cands]
+            s0 = named[0] if named else min(cands, key=lambda x: (len(x.encode()), x))
             ctx.violation(f"tags_from_script_and_language panics on the valid UTF-8 language \"{s0}\" at {site}",
                           {"stage": "search", "stream": "tag-total", "request": f"tags {tg('Latn')} {hx(s0)}",
                            "language": s0, "panic_site": site, "observed": o})
